@@ -8,11 +8,21 @@
      init                      MIR_init2 (alloc, code_alloc) + error function
      c2m_init | c2m_finish     c2mir_init / c2mir_finish
      c2m <name> <hex C source> c2mir_compile of a C translation unit
+     file <name> <hex text>    write a header into this script's private include directory
+     c2mo <name> <opts> <hex>  c2mir_compile with options; <opts> = '-' or a comma list of
+                               Dname=def | Dname | Uname (macro commands), I (add the private include directory),
+                               E (prepro_only into a sink), S (syntax_only), asm | obj (module also output / written
+                               into a sink FILE that c2mir closes), v (verbose), d (debug), w (ignore warnings)
      scan <hex MIR text>       MIR_scan_string
      api <k> <variant>         build module "api<k>" through the construction API
      write | read              MIR_write_with_func into the script's byte buffer / MIR_read_with_func from it
-     fwrite | fread            MIR_write / MIR_read through a tmpfile()
+     fwrite | fread            MIR_write into a tmpfile() whose bytes become the script's byte buffer / MIR_read from a
+                               tmpfile() holding the byte buffer
+     wmod <i> | fwmod <i>      MIR_write_module_with_func / MIR_write_module of the i-th module (mod the number of modules)
      output                    MIR_output to the null sink
+     outmod <i> | outitems <i> MIR_output_module / MIR_output_item of every item of the i-th module
+     gen_dbg <level>           MIR_gen_set_debug_file (null sink) + MIR_gen_set_debug_level
+     interpa <func> <arg>      MIR_interp_arr
      load                      MIR_load_module of every module not yet loaded
      link <interp|gen|lazy|lazybb>
      gen_init | gen_finish | opt <level>
@@ -30,6 +40,8 @@
 #include <stdint.h>
 #include <stdarg.h>
 #include <setjmp.h>
+#include <unistd.h>
+#include <sys/stat.h>
 #include "mir.h"
 #include "mir-gen.h"
 #include "c2mir/c2mir.h"
@@ -56,6 +68,9 @@ struct api {
   size_t wlen, wcap, rpos;
   const char *src;
   size_t src_pos; /* c2mir getc */
+  char incdir[64]; /* private include directory (created on demand by `file`) */
+  char *incfiles[16];
+  int nincfiles;
 };
 
 static __thread struct api *api_cur; /* thread-local: no sharing between threads */
@@ -209,16 +224,74 @@ static void api_build_module (struct api *a, int k, int variant) {
   MIR_finish_module (ctx);
 }
 
+
+/* the i-th module of the context, i taken modulo the number of modules */
+static MIR_module_t api_nth_module (struct api *a, int i) {
+  int n = 0;
+  MIR_module_t m;
+  for (m = DLIST_HEAD (MIR_module_t, *MIR_get_module_list (a->ctx)); m != NULL; m = DLIST_NEXT (MIR_module_t, m)) n++;
+  if (n == 0) return NULL;
+  i = (i % n + n) % n;
+  for (m = DLIST_HEAD (MIR_module_t, *MIR_get_module_list (a->ctx)); i > 0; m = DLIST_NEXT (MIR_module_t, m)) i--;
+  return m;
+}
+
+/* private include directory of this script (one per struct api: nothing shared between threads) */
+static int api_add_file (struct api *a, const char *name, const char *text) {
+  char path[200];
+  FILE *f;
+  if (a->incdir[0] == 0) {
+    const char *t = getenv ("TMPDIR"); /* read once per script before any library call of this step */
+    snprintf (a->incdir, sizeof (a->incdir), "%s/c17inc-%ld-%d-XXXXXX", t != NULL && strlen (t) < 20 ? t : "/tmp",
+              (long) getpid (), a->id);
+    if (mkdtemp (a->incdir) == NULL) return -1;
+  }
+  if (a->nincfiles == 16 || strchr (name, '/') != NULL) return -1;
+  snprintf (path, sizeof (path), "%s/%s", a->incdir, name);
+  if ((f = fopen (path, "w")) == NULL) return -1;
+  fputs (text, f);
+  fclose (f);
+  for (int i = 0; i < a->nincfiles; i++)
+    if (strcmp (a->incfiles[i], path) == 0) return 0;
+  a->incfiles[a->nincfiles] = API_REALLOC (NULL, strlen (path) + 1);
+  strcpy (a->incfiles[a->nincfiles++], path);
+  return 0;
+}
+
+static void api_cleanup_files (struct api *a) {
+  for (int i = 0; i < a->nincfiles; i++) {
+    unlink (a->incfiles[i]);
+    API_FREE (a->incfiles[i]);
+  }
+  a->nincfiles = 0;
+  if (a->incdir[0] != 0) rmdir (a->incdir);
+  a->incdir[0] = 0;
+}
+
+/* bytes of a stdio stream -> the script's byte buffer */
+static void api_slurp (struct api *a, FILE *f) {
+  int c;
+  rewind (f);
+  a->wlen = 0;
+  while ((c = getc (f)) != EOF) {
+    if (a->wlen == a->wcap) {
+      a->wcap = a->wcap ? 2 * a->wcap : 4096;
+      a->wbuf = API_REALLOC (a->wbuf, a->wcap);
+    }
+    a->wbuf[a->wlen++] = (unsigned char) c;
+  }
+}
+
 /* executes one script line; returns 0, or -1 after a MIR error / failed compile (the script is
    then not an error-free history and the caller discards it) */
 static int api_exec (struct api *a, const char *line) {
-  char cmd[32], s1[64], s2[64];
+  char cmd[32], s1[64], s2[200];
   const char *rest = line;
   int nw, err;
   long v;
 
   cmd[0] = s1[0] = s2[0] = 0;
-  nw = sscanf (line, "%31s %63s %63s", cmd, s1, s2);
+  nw = sscanf (line, "%31s %63s %199s", cmd, s1, s2);
   if (nw < 1) return 0;
   rest = line + strlen (cmd);
   while (*rest == ' ') rest++;
@@ -232,6 +305,8 @@ static int api_exec (struct api *a, const char *line) {
   if (strcmp (cmd, "init") == 0) {
     a->ctx = MIR_init2 (a->alloc, a->code_alloc);
     MIR_set_error_func (a->ctx, api_error_func);
+    a->gen_on = a->c2m_on = a->linked = 0; /* a script may create several contexts one after another */
+    a->nloaded = 0;
   } else if (strcmp (cmd, "c2m_init") == 0) {
     c2mir_init (a->ctx);
     a->c2m_on = 1;
@@ -254,6 +329,71 @@ static int api_exec (struct api *a, const char *line) {
       api_outf (a, "X C2MFAIL %s", s1);
       return -1;
     }
+  } else if (strcmp (cmd, "file") == 0) {
+    char *txt = api_unhex (rest + strlen (s1) + 1);
+    int rc = api_add_file (a, s1, txt);
+    API_FREE (txt);
+    if (rc != 0) {
+      a->err_armed = 0;
+      api_outf (a, "X FILEFAIL %s", s1);
+      return -1;
+    }
+  } else if (strcmp (cmd, "c2mo") == 0) {
+    struct c2mir_options ops;
+    struct c2mir_macro_command mc[16];
+    const char *dirs[1];
+    char optbuf[200], *tok, *save = NULL, *eq;
+    char *src = api_unhex (rest + strlen (s1) + 1 + strlen (s2) + 1);
+    FILE *outf = NULL, *pf = NULL;
+    int ok, no_module = 0;
+    memset (&ops, 0, sizeof (ops));
+    ops.message_file = a->null_file;
+    ops.module_num = a->nloaded + 100 * (size_t) a->id;
+    ops.macro_commands = mc;
+    strcpy (optbuf, s2);
+    for (tok = strtok_r (optbuf, ",", &save); tok != NULL; tok = strtok_r (NULL, ",", &save)) {
+      if ((tok[0] == 'D' || tok[0] == 'U') && tok[1] != 0 && ops.macro_commands_num < 16) {
+        struct c2mir_macro_command *m = &mc[ops.macro_commands_num++];
+        m->def_p = tok[0] == 'D';
+        m->name = tok + 1;
+        m->def = "1";
+        if (m->def_p && (eq = strchr (tok, '=')) != NULL) {
+          *eq = 0;
+          m->def = eq + 1;
+        }
+      } else if (strcmp (tok, "I") == 0 && a->incdir[0] != 0) {
+        dirs[0] = a->incdir;
+        ops.include_dirs = dirs;
+        ops.include_dirs_num = 1;
+      } else if (strcmp (tok, "E") == 0) {
+        ops.prepro_only_p = 1;
+        ops.prepro_output_file = pf = fopen ("/dev/null", "w");
+        no_module = 1;
+      } else if (strcmp (tok, "S") == 0) {
+        ops.syntax_only_p = 1;
+        no_module = 1;
+      } else if (strcmp (tok, "asm") == 0 || strcmp (tok, "obj") == 0) {
+        if (tok[0] == 'a') ops.asm_p = 1; else ops.object_p = 1;
+        if (outf == NULL) outf = tmpfile (); /* closed by c2mir_compile */
+      } else if (strcmp (tok, "v") == 0) {
+        ops.verbose_p = 1;
+      } else if (strcmp (tok, "d") == 0) {
+        ops.debug_p = 1;
+      } else if (strcmp (tok, "w") == 0) {
+        ops.ignore_warnings_p = 1;
+      }
+    }
+    a->src = src;
+    a->src_pos = 0;
+    ok = c2mir_compile (a->ctx, &ops, api_getc, a, s1, no_module ? NULL : outf);
+    if (no_module && outf != NULL) fclose (outf);
+    if (pf != NULL) fclose (pf);
+    API_FREE (src);
+    if (!ok) {
+      a->err_armed = 0;
+      api_outf (a, "X C2MFAIL %s", s1);
+      return -1;
+    }
   } else if (strcmp (cmd, "scan") == 0) {
     char *src = api_unhex (rest);
     MIR_scan_string (a->ctx, src);
@@ -267,17 +407,42 @@ static int api_exec (struct api *a, const char *line) {
   } else if (strcmp (cmd, "read") == 0) {
     a->rpos = 0;
     MIR_read_with_func (a->ctx, api_reader);
-  } else if (strcmp (cmd, "fwrite") == 0 || strcmp (cmd, "fread") == 0) {
-    /* round trip through a stdio stream inside one step */
+  } else if (strcmp (cmd, "fwrite") == 0 || strcmp (cmd, "fwmod") == 0) {
+    /* stdio variant: the written bytes become the script's byte buffer (so that `take` + `read`/`fread` of another
+       context sees them) */
     FILE *f = tmpfile ();
     if (f != NULL) {
-      MIR_write (a->ctx, f);
-      if (strcmp (cmd, "fread") == 0) {
-        rewind (f);
-        MIR_read (a->ctx, f);
-      }
+      if (cmd[2] == 'r')
+        MIR_write (a->ctx, f);
+      else
+        MIR_write_module (a->ctx, f, api_nth_module (a, atoi (s1)));
+      fflush (f);
+      api_slurp (a, f);
+      fclose (f);
+      api_outf (a, "R %s %lu", cmd, (unsigned long) a->wlen);
+    }
+  } else if (strcmp (cmd, "fread") == 0) {
+    FILE *f = tmpfile ();
+    if (f != NULL) {
+      fwrite (a->wbuf, 1, a->wlen, f);
+      rewind (f);
+      MIR_read (a->ctx, f);
       fclose (f);
     }
+  } else if (strcmp (cmd, "wmod") == 0) {
+    a->wlen = 0;
+    MIR_write_module_with_func (a->ctx, api_writer, api_nth_module (a, atoi (s1)));
+    api_outf (a, "R wmod %lu", (unsigned long) a->wlen);
+  } else if (strcmp (cmd, "outmod") == 0) {
+    MIR_output_module (a->ctx, a->null_file, api_nth_module (a, atoi (s1)));
+  } else if (strcmp (cmd, "outitems") == 0) {
+    MIR_module_t m = api_nth_module (a, atoi (s1));
+    if (m != NULL)
+      for (MIR_item_t it = DLIST_HEAD (MIR_item_t, m->items); it != NULL; it = DLIST_NEXT (MIR_item_t, it))
+        MIR_output_item (a->ctx, a->null_file, it);
+  } else if (strcmp (cmd, "gen_dbg") == 0) {
+    MIR_gen_set_debug_file (a->ctx, a->null_file);
+    MIR_gen_set_debug_level (a->ctx, atoi (s1));
   } else if (strcmp (cmd, "output") == 0) {
     MIR_output (a->ctx, a->null_file);
   } else if (strcmp (cmd, "load") == 0) {
@@ -302,7 +467,8 @@ static int api_exec (struct api *a, const char *line) {
     a->gen_on = 0;
   } else if (strcmp (cmd, "opt") == 0) {
     MIR_gen_set_optimize_level (a->ctx, (unsigned) atoi (s1));
-  } else if (strcmp (cmd, "interp") == 0 || strcmp (cmd, "call") == 0 || strcmp (cmd, "gen") == 0) {
+  } else if (strcmp (cmd, "interp") == 0 || strcmp (cmd, "interpa") == 0 || strcmp (cmd, "call") == 0
+             || strcmp (cmd, "gen") == 0) {
     MIR_item_t f = api_find_func (a, s1);
     if (f == NULL) {
       a->err_armed = 0;
@@ -310,10 +476,14 @@ static int api_exec (struct api *a, const char *line) {
       return -1;
     }
     v = atol (s2);
-    if (strcmp (cmd, "interp") == 0) {
-      MIR_val_t r;
+    if (strcmp (cmd, "interp") == 0 || strcmp (cmd, "interpa") == 0) {
+      MIR_val_t r, arg;
       r.i = 0;
-      MIR_interp (a->ctx, f, &r, 1, (MIR_val_t){.i = v});
+      arg.i = v;
+      if (cmd[6] == 0)
+        MIR_interp (a->ctx, f, &r, 1, arg);
+      else
+        MIR_interp_arr (a->ctx, f, &r, 1, &arg);
       api_outf (a, "R %s %ld = %ld", s1, v, (long) r.i);
     } else if (strcmp (cmd, "gen") == 0) {
       void *addr = MIR_gen (a->ctx, f);
